@@ -87,10 +87,15 @@ def gen_cases(tier: str, seed: int):
                        ["N", None, "insert", ["cols", ["K", "V"], [["s", "K"], ["s", "V"]]]]]
             if clauses[0][2] == "delete":
                 clauses[0] = ["M", None, "delete"]
-        yield {
+        case = {
             "t": _rows_t(r), "s": _rows_s(r), "clauses": clauses, "variant": r.choice(VARIANTS),
             "two_keys": False, "txn": r.random() < 0.15 and not fail, "notnull": fail,
         }
+        if r.random() < 0.2:
+            # the same merge over strings with backslashes in them (in rows, SET / VALUES constants and conditions)
+            case = _with_backslashes(case)
+            case["backslashes"] = True
+        yield case
 
 
 # ---------------------------------------------------------------------------
@@ -106,7 +111,32 @@ def _cond_sql(c: list | None, ta: str, sa: str) -> str:
 
 
 def _lit(v: Any) -> str:
-    return f"'{v}'" if isinstance(v, str) else str(v)
+    return "'" + v.replace("\\", "\\\\").replace("'", "''") + "'" if isinstance(v, str) else str(v)
+
+
+def _esc_word(s: str) -> str:
+    # a -> a\n , upd -> u\pd , ins -> i\ns , x -> x\n : backslash followed by something Snowflake reads as an escape
+    return s + "\\n" if len(s) == 1 else s[0] + "\\" + s[1:]
+
+
+def _with_backslashes(case: dict) -> dict:
+    """Every string value (W column of both tables, string constants of SET / VALUES, the W condition) gets a backslash."""
+    e = _esc_word
+    out = dict(case)
+    out["t"] = [[k, v, e(w)] for k, v, w in case["t"]]
+    out["s"] = [[k, v, e(w), f] for k, v, w, f in case["s"]]
+    cl = []
+    for c in case["clauses"]:
+        c = [x for x in c]
+        if c[1] is not None and isinstance(c[1][3], str) and c[1][0] != "ts":
+            c[1] = [c[1][0], c[1][1], c[1][2], e(c[1][3])]
+        if c[2] == "update":
+            c[3] = [[col, how, (e(val) if how == "c" and isinstance(val, str) else val)] for col, how, val in c[3]]
+        if c[2] == "insert":
+            c[3] = [c[3][0], c[3][1], [[how, (e(val) if how == "c" and isinstance(val, str) else val)] for how, val in c[3][2]]]
+        cl.append(c)
+    out["clauses"] = cl
+    return out
 
 
 TCOL = {"K": 0, "V": 1, "W": 2}
